@@ -9,6 +9,7 @@ import (
 	"encoding/json"
 	"fmt"
 	"os"
+	"sort"
 	"strconv"
 )
 
@@ -30,8 +31,8 @@ func (r *Rand) Intn(n int) int {
 	}
 	return int(r.Next() % uint64(n))
 }
-func (r *Rand) Bool() bool         { return r.Next()&1 == 1 }
-func (r *Rand) Chance(p int) bool  { return r.Intn(100) < p }
+func (r *Rand) Bool() bool              { return r.Next()&1 == 1 }
+func (r *Rand) Chance(p int) bool       { return r.Intn(100) < p }
 func (r *Rand) Pick(xs []string) string { return xs[r.Intn(len(xs))] }
 
 // Params reads VERIF_SEED / VERIF_N (defaults 1 / def).
@@ -340,8 +341,66 @@ func (g *JGen) Triple() (o, l, d M) {
 	if o, ok = ov.(map[string]interface{}); !ok {
 		o = M{}
 	}
+	// shape divergence of one side only: an item of some list loses its conventional keys or turns into a scalar while the
+	// other two sides keep theirs (the merge-key detection looks at all three lists)
+	if g.R.Chance(12) {
+		l, _ = g.dekey(l).(map[string]interface{})
+		if l == nil {
+			l = M{}
+		}
+	}
+	if g.R.Chance(5) {
+		if x, ok := g.dekey(o).(map[string]interface{}); ok {
+			o = x
+		}
+	}
+	if g.R.Chance(5) {
+		if x, ok := g.dekey(d).(map[string]interface{}); ok && len(x) > 0 {
+			d = x
+		}
+	}
 	if g.R.Chance(10) {
 		l = nil
 	}
 	return
+}
+
+// dekey returns a copy of v in which one item of every list of objects (walked top-down, each with probability 1/2) lost its
+// conventional merge keys or became a scalar.
+func (g *JGen) dekey(v interface{}) interface{} {
+	switch t := v.(type) {
+	case map[string]interface{}:
+		out := M{}
+		keys := make([]string, 0, len(t))
+		for k := range t {
+			keys = append(keys, k)
+		}
+		sort.Strings(keys)
+		for _, k := range keys {
+			out[k] = g.dekey(t[k])
+		}
+		return out
+	case []interface{}:
+		out := make([]interface{}, len(t))
+		for i, x := range t {
+			out[i] = DeepCopy(x)
+		}
+		if len(out) > 0 && g.R.Bool() {
+			i := g.R.Intn(len(out))
+			if m, ok := out[i].(map[string]interface{}); ok && g.R.Chance(60) {
+				c := M{}
+				for k, y := range m {
+					if !contains(mergeKeyNames, k) {
+						c[k] = y
+					}
+				}
+				out[i] = c
+			} else {
+				out[i] = g.Scalar()
+			}
+		}
+		return out
+	default:
+		return v
+	}
 }
